@@ -362,7 +362,15 @@ def normalize(scn, raw):
         elif n == "x.end":
             out.append({"e": "XEnd", "x": "x%d" % e["call"]})
         elif n == "exec.ret":
-            out.append({"e": "ExecRet", "x": "x%d" % e["call"], "same": bool(e["same"]), "got": e["got"]})
+            call = next((c for c in ev if c["e"] == "exec.call" and c["call"] == e["call"]), {})
+            ctxp = str(call.get("ctx", ""))
+            ctxf = c["flav"].get(ctxp.split(":", 1)[1]) if ctxp.startswith("payload:") else None
+            started = any(x["e"] == "x.start" and x["call"] == e["call"] for x in ev)
+            if e["got"] == "raise" and not started and ctxf in ("asyncio", "trio") and ctxf == call.get("flavour"):
+                # refused: a coroutine payload asked its own flavour's loop for a blocking execute
+                out.append({"e": "ExecRefused", "x": "x%d" % e["call"]})
+            else:
+                out.append({"e": "ExecRet", "x": "x%d" % e["call"], "same": bool(e["same"]), "got": e["got"]})
         elif n == "quiescent":
             out.append({"e": "Quiescent"})
         elif n == "timeout":
